@@ -44,6 +44,14 @@ package isaac
 //@   ensures [fields] r1 == nil ==> r0.StagePoint == point && r0.isMajority == isMajority && r0.isSuffrageConfirm == isSuffrageConfirm
 //@   ensures [sc-only-init] r1 == nil && isSuffrageConfirm ==> point.stage == "INIT"
 
+// the position new voteproofs are judged against (LastVoteproofs.Cap): the later
+// of the last INIT and the last ACCEPT voteproof by (height, round); on a tie
+// the ACCEPT one
+//@ func findLastVoteproofs
+//@   prop C06
+//@   ensures [one-missing] (ivp == nil ==> r0 == avp) && (ivp != nil && avp == nil ==> r0 == ivp)
+//@   ensures [cap] ivp != nil && avp != nil ==> r0 == ite(avp.Point().h < ivp.Point().h || (avp.Point().h == ivp.Point().h && avp.Point().r < ivp.Point().r), ivp, avp)
+
 // ---- functions deliberately not followed (their effect is "anything reachable") ----
 
 //@ func BlockItemReadersDecode
